@@ -47,7 +47,7 @@ def step_st(draw, outcomes=None, cols=None, with_async=True, with_cleanup=False,
         if step["o"] == "raise" and draw(st.integers(0, 2)) == 0:
             # any exception type is an error, also TimeoutError and a plain NotImplementedError
             step["o"] = draw(st.sampled_from(["raise_timeout", "raise_notimpl"]))
-    if with_async and step["o"] not in ("interrupt", "undefined", "convert", "convert_key") and \
+    if with_async and step["o"] not in ("interrupt", "undefined", "convert", "convert_key", "takes") and \
             not step["o"].startswith("<") and draw(st.integers(0, 5)) == 0:
         step["a"] = draw(st.sampled_from([True, 2]))    # 2: @async_run_until_complete(timeout=...)
     if with_cleanup:
